@@ -483,7 +483,7 @@ func (c *Ctx) finish(verifDir string, info propInfo, replayOnly string) int {
 		"violations":  len(viol),
 		"assumptions": info.Assumptions,
 		"coverage": map[string]any{
-			"explanation":         info.Explanation,
+			"explanation":         info.Explanation + " Rules added after the seeded-change rounds are listed, each with its full statement and instance count, under coverage.rules; this paragraph names the original core.",
 			"not_decided":         info.NotDecided,
 			"obligations":         total,
 			"discharged":          nOK,
